@@ -133,7 +133,7 @@ def judge(case, ctx, prefix='C10'):
         d_scale = max(1.0, float(np.max(np.abs(np.linalg.inv(Mlib)))))                   # natural size of a transfer entry (largest transimpedance)
     except Exception:
         kap, d_scale = float('inf'), 1.0
-    id_tol = max(1e-7, 256 * kap * 2.0 ** -53)
+    id_tol = max(1e-6, 4096 * kap * 2.0 ** -53)          # two nested inversions in the builder
     if not kap < 1e10:
         order = []
         ctx.count('set_aside_state_identity_ill_conditioned')
